@@ -103,6 +103,7 @@ struct Stats {
     disk_writes_in_expansion: u64,
     concurrent_pairs: u64,
     scheduler_switches: u64,
+    scheduling_points: u64,
     env_names_in_expansion: BTreeSet<String>,
     fs_calls_in_expansion: u64,
     fs_names_in_expansion: BTreeSet<String>,
@@ -160,6 +161,7 @@ impl Stats {
         self.disk_writes_in_expansion += o.disk_writes_in_expansion;
         self.concurrent_pairs += o.concurrent_pairs;
         self.scheduler_switches += o.scheduler_switches;
+        self.scheduling_points += o.scheduling_points;
         self.env_names_in_expansion.extend(o.env_names_in_expansion);
         self.fs_calls_in_expansion += o.fs_calls_in_expansion;
         self.fs_names_in_expansion.extend(o.fs_names_in_expansion);
@@ -333,6 +335,8 @@ struct WorldOutcome {
     harness_error: Option<String>,
     env_names: Vec<String>,
     fs_names: Vec<String>,
+    /// inputs whose expansion touched a seam in this world, with the mask of seams
+    seam_items: Vec<(item::Item, gen::Class, u32)>,
     /// kept only for divergent worlds: exactly what was executed
     world: Option<World>,
 }
@@ -367,10 +371,14 @@ fn run_planned_world(env: &Env, idx: usize, ws: u64, w: World, want_sample: bool
     }
     st.inputs = w.items.len() as u64;
 
+    let t_exec = std::time::Instant::now();
     let logs = match exec_world(env, &w) {
         Ok(l) => l,
-        Err(e) => return WorldOutcome { idx, seed: ws, stats: st, divergence: None, harness_error: Some(format!("world {} (seed {}): {}", idx, ws, e.0)), env_names: vec![], fs_names: vec![], world: None },
+        Err(e) => return WorldOutcome { idx, seed: ws, stats: st, divergence: None, harness_error: Some(format!("world {} (seed {}): {}", idx, ws, e.0)), env_names: vec![], fs_names: vec![], seam_items: vec![], world: None },
     };
+    if t_exec.elapsed().as_secs_f64() > 2.0 && std::env::var("SIM_TIMING").is_ok() {
+        eprintln!("timing: world {} took {:.1}s: faults={} inputs={} hosts={} events={:?} pairs={} switches={} max_text={}", idx, t_exec.elapsed().as_secs_f64(), fault_names(w.faults).join("+"), w.items.len(), w.hosts.len(), w.hosts.iter().map(|h| h.events.len()).collect::<Vec<_>>(), logs.iter().map(|l| l.pairs).sum::<u64>(), logs.iter().map(|l| l.switches).sum::<u64>(), w.texts.iter().map(|t| t.1.len()).max().unwrap_or(0));
+    }
 
     let reference = &logs[0];
     for o in &reference.obs {
@@ -392,6 +400,7 @@ fn run_planned_world(env: &Env, idx: usize, ws: u64, w: World, want_sample: bool
     let mut divergence: Option<(Divergence, bool)> = None;
     let mut env_names: BTreeSet<String> = BTreeSet::new();
     let mut fs_names: BTreeSet<String> = BTreeSet::new();
+    let mut seam_items: Vec<(item::Item, gen::Class, u32)> = Vec::new();
     for (hi, (h, log)) in w.hosts.iter().zip(logs.iter()).enumerate() {
         st.hosts += 1;
         st.expansions += log.obs.len() as u64;
@@ -407,8 +416,18 @@ fn run_planned_world(env: &Env, idx: usize, ws: u64, w: World, want_sample: bool
         st.disk_writes_in_expansion += log.counters[9];
         st.concurrent_pairs += log.pairs;
         st.scheduler_switches += log.switches;
+        st.scheduling_points += log.sched_points;
+        for (pos, mask) in &log.touched {
+            if let Some(o) = log.obs.iter().find(|o| o.pos == *pos) {
+                let i = o.input as usize;
+                if i < w.items.len() && i < w.classes.len() && seam_items.len() < 8 && !seam_items.iter().any(|x: &(item::Item, gen::Class, u32)| x.0.render() == w.items[i].render()) {
+                    seam_items.push((w.items[i].clone(), w.classes[i], *mask));
+                }
+            }
+        }
         for n in log.env_names.split(';').filter(|x| !x.is_empty()) {
             env_names.insert(n.to_string());
+            st.env_names_in_expansion.insert(n.to_string());
         }
         st.fs_calls_in_expansion += log.fs_calls;
         for n in log.fs_names.split(';').filter(|x| !x.is_empty()) {
@@ -534,7 +553,7 @@ fn run_planned_world(env: &Env, idx: usize, ws: u64, w: World, want_sample: bool
     }
 
     let keep = divergence.is_some();
-    WorldOutcome { idx, seed: ws, stats: st, divergence, harness_error: None, env_names: env_names.into_iter().collect(), fs_names: fs_names.into_iter().collect(), world: if keep { Some(w) } else { None } }
+    WorldOutcome { idx, seed: ws, stats: st, divergence, harness_error: None, env_names: env_names.into_iter().collect(), fs_names: fs_names.into_iter().collect(), seam_items, world: if keep { Some(w) } else { None } }
 }
 
 fn world_seed(master: u64, idx: usize) -> u64 {
@@ -543,24 +562,47 @@ fn world_seed(master: u64, idx: usize) -> u64 {
 }
 
 fn plan_opts(cfg: &Cfg, env: &Env, feedback: &[String], fs_feedback: &[String]) -> PlanOpts {
+    plan_opts_pool(cfg, env, feedback, fs_feedback, &[])
+}
+
+fn plan_opts_pool(cfg: &Cfg, env: &Env, feedback: &[String], fs_feedback: &[String], seam_pool: &[(item::Item, gen::Class, u32)]) -> PlanOpts {
     let hooked_available = env.host_bin(Backend::Syn1, Build::Hooked).is_some() && env.host_bin(Backend::Syn2, Build::Hooked).is_some();
-    PlanOpts { backend: cfg.backend, build: cfg.build, hooked_available, feedback: feedback.to_vec(), fs_feedback: fs_feedback.to_vec(), cwds: vec!["/".into(), "/tmp".into(), cfg.build_dir.to_string_lossy().into_owned(), cfg.repo.to_string_lossy().into_owned()], max_inputs: if cfg.tier == "thorough" { 32 } else { 20 }, ultra_index: None }
+    PlanOpts { backend: cfg.backend, build: cfg.build, hooked_available, feedback: feedback.to_vec(), fs_feedback: fs_feedback.to_vec(), cwds: vec!["/".into(), "/tmp".into(), cfg.build_dir.to_string_lossy().into_owned(), cfg.repo.to_string_lossy().into_owned()], max_inputs: if cfg.tier == "thorough" { 32 } else { 20 }, seam_pool: seam_pool.to_vec(), ultra_index: None }
 }
 
 fn run_batch(env: &Env, cfg: &Cfg, corpus: &corpus::Corpus, po: &PlanOpts, indices: &[usize], jobs: usize) -> Vec<WorldOutcome> {
+    // plan first (cheap, in parallel), then execute the most expensive worlds first: a batch
+    // ends at a barrier (the next batch is planned from this one's feedback), and a long
+    // history that starts last would keep every other worker waiting
     let next = AtomicUsize::new(0);
-    let out: Mutex<Vec<WorldOutcome>> = Mutex::new(Vec::new());
+    let planned: Mutex<Vec<(usize, u64, World)>> = Mutex::new(Vec::new());
     std::thread::scope(|s| {
-        for slot in 0..jobs.max(1) {
-            let (next, out) = (&next, &out);
+        for _ in 0..jobs.max(1) {
+            let (next, planned) = (&next, &planned);
             s.spawn(move || loop {
-                plan::SLOT.with(|x| x.set(slot));
                 let i = next.fetch_add(1, Ordering::SeqCst);
                 if i >= indices.len() {
                     break;
                 }
                 let idx = indices[i];
-                let o = run_world(env, idx, world_seed(cfg.seed, idx), corpus, po, idx % 37 == 0);
+                let w = plan_world(world_seed(cfg.seed, idx), corpus, po);
+                let bytes: u64 = w.texts.iter().map(|t| t.1.len() as u64).sum::<u64>() / (w.texts.len().max(1) as u64);
+                let events: u64 = w.hosts.iter().map(|h| h.events.len() as u64).sum();
+                planned.lock().unwrap().push((idx, events * (bytes + 200), w));
+            });
+        }
+    });
+    let mut planned = planned.into_inner().unwrap();
+    planned.sort_by_key(|p| (std::cmp::Reverse(p.1), p.0));
+    let queue: Mutex<std::collections::VecDeque<(usize, u64, World)>> = Mutex::new(planned.into_iter().collect());
+    let out: Mutex<Vec<WorldOutcome>> = Mutex::new(Vec::new());
+    std::thread::scope(|s| {
+        for slot in 0..jobs.max(1) {
+            let (queue, out) = (&queue, &out);
+            s.spawn(move || loop {
+                plan::SLOT.with(|x| x.set(slot));
+                let Some((idx, _, w)) = queue.lock().unwrap().pop_front() else { break };
+                let o = run_planned_world(env, idx, world_seed(cfg.seed, idx), w, idx % 37 == 0);
                 out.lock().unwrap().push(o);
             });
         }
@@ -832,6 +874,8 @@ fn cmd_run(cfg: &Cfg) -> i32 {
     let mut capped = false;
     // the ultra-marathon world(s) (65536+ expansions in one process) run beside the batches
     let n_ultra = if std::env::var("SIM_NO_ULTRA").is_ok() { 0 } else if cfg.tier == "thorough" { 4 } else { 1 };
+    let mut seam_pool: Vec<(item::Item, gen::Class, u32)> = Vec::new();
+    let mut seam_touching_inputs = 0u64;
     let ultra_out: Mutex<Vec<WorldOutcome>> = Mutex::new(Vec::new());
     // the end-to-end tier (real cargo + rustc) also runs beside the batches
     let rustc_tier_out: Mutex<Option<Result<rustc_tier::TierResult, String>>> = Mutex::new(None);
@@ -873,8 +917,15 @@ fn cmd_run(cfg: &Cfg) -> i32 {
         let indices: Vec<usize> = (done..hi).collect();
         let fb: Vec<String> = feedback.iter().cloned().collect();
         let ffb: Vec<String> = fs_feedback.iter().cloned().collect();
-        let po = plan_opts(cfg, &env, &fb, &ffb);
+        let po = plan_opts_pool(cfg, &env, &fb, &ffb, &seam_pool);
         for o in run_batch(&env, cfg, &corpus, &po, &indices, cfg.jobs) {
+            for it in o.seam_items {
+                seam_touching_inputs += 1;
+                let text = it.0.render();
+                if seam_pool.len() < 128 && !seam_pool.iter().any(|x| x.0.render() == text) {
+                    seam_pool.push(it);
+                }
+            }
             if let Some(e) = o.harness_error {
                 harness_errors.push(e);
             }
@@ -894,6 +945,9 @@ fn cmd_run(cfg: &Cfg) -> i32 {
             total.merge(o.stats);
         }
         done = hi;
+        if std::env::var("SIM_TIMING").is_ok() {
+            eprintln!("timing: {} worlds done at {:.1}s", done, t0.elapsed().as_secs_f64());
+        }
         // a broken tree fails almost every world; no need to burn the whole budget
         if divergences.len() >= 24 {
             break;
@@ -1077,7 +1131,7 @@ fn cmd_run(cfg: &Cfg) -> i32 {
             "inputs_per_class": total.per_class_inputs, "reference_verdicts": total.verdicts,
             "max_o2o_diagnostics_in_one_input": total.max_errors_in_one_input, "max_impls_in_one_input": total.max_impls_in_one_input,
             "input_shape_probes": {"note": "how many of the reference observations' inputs have each shape (a probe stuck at 0 is a blind spot of the workload)", "hits": total.shape_probes},
-            "corpus": {"items": corpus.items.len(), "files": corpus.files, "from_o2o_tests": corpus.from_tests_dir, "from_unit_tests": corpus.from_unit_tests, "from_readme_and_doc_comments": corpus.from_docs, "source_dictionary_env_names": corpus.dict_env, "source_dictionary_argv": corpus.dict_argv, "source_dictionary_unknown_keywords": corpus.dict_keywords},
+            "corpus": {"items": corpus.items.len(), "files": corpus.files, "from_o2o_tests": corpus.from_tests_dir, "from_unit_tests": corpus.from_unit_tests, "from_readme_and_doc_comments": corpus.from_docs, "source_dictionary_env_names": corpus.dict_env, "source_dictionary_argv": corpus.dict_argv, "source_dictionary_unknown_keywords": corpus.dict_keywords, "source_dictionary_values": corpus.dict_values, "source_dictionary_lifetimes": corpus.dict_lifetimes, "source_dictionary_template_identifiers": corpus.dict_idents},
             "faults": {
                 "enabled_in_worlds": total.fault_enabled_worlds,
                 "fired_on_hosts": total.fault_fired_hosts,
@@ -1086,14 +1140,14 @@ fn cmd_run(cfg: &Cfg) -> i32 {
                 "distinct_history_prefix_lengths": total.prefix_lengths.len(),
                 "heap_perturbation_events": total.perturb_events,
                 "order_policy_events": total.order_policy_events,
-                "concurrent_pairs_executed": total.concurrent_pairs, "scheduler_switches_inside_pairs": total.scheduler_switches,
+                "concurrent_pairs_executed": total.concurrent_pairs, "scheduler_switches_inside_pairs": total.scheduler_switches, "scheduling_points_offered_heap_allocations_and_blocking_waits": total.scheduling_points,
                 "ultra_marathon_worlds_65536_plus_expansions_in_one_process": n_ultra, "expansions_in_ultra_marathons": ultra_expansions, "marathon_hosts_ge250_expansions": total.marathon_hosts, "longest_history_expansions": total.longest_history,
                 "entropy_requests_served_by_shim": total.getrandom_calls, "entropy_bytes_served": total.getrandom_bytes,
             },
             "reads_of_seams_during_expansions": {
                 "getrandom": total.getrandom_in_expansion,
                 "clock": total.clock_reads_in_expansion,
-                "getenv": total.getenv_in_expansion, "getenv_names": total.env_names_in_expansion,
+                "getenv": total.getenv_in_expansion, "getenv_names": total.env_names_in_expansion, "inputs_seen_touching_a_seam": seam_touching_inputs, "seam_pool_size": seam_pool.len(),
                 "getpid": total.getpid_in_expansion,
                 "writes_to_the_simulated_disk": total.disk_writes_in_expansion,
                 "filesystem_and_identity_calls": total.fs_calls_in_expansion, "filesystem_paths_and_identity_calls": total.fs_names_in_expansion,
@@ -1158,6 +1212,16 @@ fn cmd_selftest(cfg: &Cfg) -> i32 {
         };
         if x.iter().map(|l| &l.raw).ne(y.iter().map(|l| &l.raw)) {
             eprintln!("selftest: world {} produced different host logs in two executions", idx);
+            if std::env::var("SIM_SELFTEST_DIFF").is_ok() {
+                for (la, lb) in x.iter().zip(y.iter()) {
+                    for (a, b) in la.raw.lines().zip(lb.raw.lines()) {
+                        if a != b {
+                            eprintln!("   first differing line: {}", first_diff(a, b));
+                            break;
+                        }
+                    }
+                }
+            }
             bad += 1;
         }
     }
